@@ -38,6 +38,9 @@ type blockRec struct {
 	Hash     []byte
 	Proposer []byte
 	EthMsgs  []*evmtypes.MsgEthereumTx // admitted Ethereum transactions, in block order
+	EthGas   []uint64                  // gas used the consensus result reports for each of them (0 when it was not executed)
+	EthExec  []bool                    // whether it was executed (a receipt exists)
+	Writer   bool                      // one of them calls the writer contract (gas depends on the block's time)
 	Txs      [][]byte
 }
 
@@ -63,6 +66,17 @@ type env struct {
 	midErr     []string
 	midEnabled bool
 	pruned     int64
+
+	// traces of recorded blocks / transactions: request -> first answer; the request carries the block's number, hash, time
+	// and proposer and names the parent height, so its answer may never change as the chain advances
+	traceSeen map[string]traceAnswer
+	traceOld  []*query
+}
+
+type traceAnswer struct {
+	code   uint32
+	value  string
+	atHead int64
 }
 
 func mustPack(info cpcabi.CustomPrecompiledContractInfo, name string, args ...any) []byte {
@@ -160,6 +174,15 @@ func (e *env) record(pb *vh.BlockResult, plans []*vh.TxPlan) {
 			continue
 		}
 		rec.EthMsgs = append(rec.EthMsgs, &evmtypes.MsgEthereumTx{MarshalledTx: bin, From: pl.Sender.Bech32()})
+		if pl.Tx.To() != nil && *pl.Tx.To() == e.writer {
+			rec.Writer = true
+		}
+		resp := vh.EthResponse(pb.Res.TxResults[i])
+		if rc, _ := vh.ReceiptOf(pb.Res.TxResults[i]); rc != nil && resp != nil && pb.Res.TxResults[i].Code == 0 {
+			rec.EthGas, rec.EthExec = append(rec.EthGas, resp.GasUsed), append(rec.EthExec, true)
+		} else {
+			rec.EthGas, rec.EthExec = append(rec.EthGas, 0), append(rec.EthExec, false)
+		}
 	}
 	e.hist = append(e.hist, rec)
 }
@@ -223,9 +246,13 @@ func (e *env) deploySpecials() {
 	fa := vh.NewAsm().MStoreBytes(0, child).PushU(uint64(len(child))).PushU(0).PushU(0).Op(vm.CREATE).PushU(2).Op(vm.SSTORE).Log(0xfac, 1, 2)
 	fa.PushU(7).PushU(uint64(len(child))).PushU(0).PushU(0).Op(vm.CREATE2).PushU(3).Op(vm.SSTORE).Op(vm.STOP)
 	deploy("factory", fa.Bytes(), nil, &e.factory)
-	// writer: slot0 += 1 ; slot[calldatasize] = caller ; clears slot 5 ; log
+	// writer: slot0 += 1 ; slot[calldatasize] = caller ; clears slot 5 ; slot7 = TIMESTAMP ; slot8 = NUMBER ; log
 	wr := vh.NewAsm().PushU(1).PushU(0).Op(vm.SLOAD, vm.ADD).PushU(0).Op(vm.SSTORE).
-		Op(vm.CALLER, vm.CALLDATASIZE, vm.SSTORE).SStore(5, 0).SStore(6, 9).Log(0x77, 3).Op(vm.STOP)
+		Op(vm.CALLER, vm.CALLDATASIZE, vm.SSTORE).SStore(5, 0).SStore(6, 9).
+		Op(vm.TIMESTAMP).PushU(7).Op(vm.SSTORE).Op(vm.NUMBER).PushU(8).Op(vm.SSTORE). // block context of the block it runs in (visible in every trace of it)
+		Op(vm.TIMESTAMP).PushU(15).Op(vm.AND).                                        // ... and TIMESTAMP mod 16 idle loop turns: the gas it uses depends on the block's time
+		Label("turn").Op(vm.DUP1, vm.ISZERO).JumpI("done").PushU(1).Op(vm.SWAP1, vm.SUB).Jump("turn").Label("done").Op(vm.POP).
+		Log(0x77, 3).Op(vm.STOP)
 	deploy("writer", wr.Bytes(), nil, &e.writer)
 	pb := e.p.NextBlock(plansTxs(plans), nil)
 	w.ResetPending()
